@@ -124,6 +124,9 @@ def _weighted(draw, pairs):
 
 def _cond(draw):
   op = draw(st.sampled_from(CONDS))
+  if draw(st.integers(0, 24)) == 0:
+    # a condition that the API accepts but whose evaluation raises (on_all([R0]): a list where varargs are expected)
+    op = 'BROKEN_' + op
   rs = draw(st.lists(st.integers(0, NRES - 1), min_size=0 if draw(st.integers(0, 9)) == 0 else 1, max_size=3, unique=True))
   return [op, sorted(rs)]
 
@@ -530,8 +533,12 @@ def _mk_cond(cond, htf):
   R = result_enum()
   members = [R.R0, R.R1, R.R2, R.R3]
   op, rs = cond
+  broken = op.startswith('BROKEN_')
+  op = op[7:] if broken else op
   f = {'ALL': htf.DiagnosisCondition.on_all, 'ANY': htf.DiagnosisCondition.on_any,
        'NOT_ANY': htf.DiagnosisCondition.on_not_any, 'NOT_ALL': htf.DiagnosisCondition.on_not_all}[op]
+  if broken:
+    return f([members[r] for r in rs] or [members[0]])   # unhashable element: the store lookup raises TypeError
   return f(*[members[r] for r in rs])
 
 
